@@ -495,7 +495,8 @@ def gen_e1(tape, tier="quick", *, allow_pull=True, allow_cycles=True, allow_dela
                     i["initial_pull"] = False
 
     t0 = min(c["start"] for c in comps if c["kind"] == "sim")
-    span = tape.choice([3, 7, 12, 20, 24, 36, 48])
+    # now and then a long run (hundreds of updates: counters, caches and buffers that only go wrong late)
+    span = tape.weighted([(3, 6), (7, 6), (12, 6), (20, 6), (24, 6), (36, 6), (48, 6), (400, 1)])
     end = t0 + span
     sc = {"engine": "E1", "components": comps, "links": links, "end": end,
           "start_given": tape.chance(1, 2), "cycles": cycles, "run_only": tape.chance(1, 2),
@@ -522,3 +523,62 @@ def update_budget(sc):
     for c in sims:
         tot += -(-(horizon + extra * max(c["steps"])) // min(c["steps"] + ([c["adaptive"]["alt"]] if c.get("adaptive") else []))) + 2
     return 4 * tot + 20
+
+
+def gen_e1_long(tape, *, lag=True):
+    """Rare large compositions (counters, caps and caches that only go wrong late or in large set-ups):
+
+    chain - a series of 14..70 time-stepped components, each reading its upstream neighbour (initial pull while
+            connecting), listed downstream-first, upstream-first or shuffled: the connect phase needs up to 2N passes
+    lag   - an hourly producer read by a slow consumer through a delay of 130..260 hours (and by a prompt one): more than a
+            hundred publications are held back in the producer's output
+    """
+    comps, links = [], []
+    if not lag or tape.chance(1, 2):
+        n = tape.weighted([(14, 2), (18, 2), (27, 2), (40, 1), (53, 3), (64, 2), (70, 1)])
+        step = tape.choice([1, 2, 3])
+        for k in range(n):
+            c = {"name": f"s{k}", "kind": "sim", "start": 0, "steps": [step], "inputs": [], "outputs": []}
+            if k > 0:
+                c["inputs"].append({"name": "i0", "initial_pull": True})
+                ch = [gen_adapter(tape, PASS)] if tape.chance(1, 6) else []
+                links.append({"src": [k - 1, 0], "dst": [k, 0], "chain": ch})
+            if k < n - 1:
+                c["outputs"].append({"name": "o0", "base": (k + 1) * 1000, "inc": 1})
+            if 0 < k < n - 1:
+                # the real CallbackComponent computes its initial output from its initial pulls: data travels one hop
+                # per connect pass
+                c["impl"] = "cbcomp"
+            comps.append(c)
+        how = tape.draw(3)
+        listing = list(range(n))
+        if how == 0:
+            listing.reverse()
+        elif how == 2:
+            listing = tape.shuffle(listing)
+        span = tape.choice([2, 3, 4]) * step
+    else:
+        d = tape.rng_int(130, 260)
+        s_slow = tape.choice([12, 24, 25, 36])
+        comps.append({"name": "s0", "kind": "sim", "start": 0, "steps": [1], "inputs": [],
+                      "outputs": [{"name": "o0", "base": 1000, "inc": 1}]})
+        comps.append({"name": "s1", "kind": "sim", "start": 0, "steps": [s_slow],
+                      "inputs": [{"name": "i0", "initial_pull": tape.chance(1, 2)}], "outputs": []})
+        parts = split_delay(tape, d, tape.weighted([(1, 3), (2, 1)]))
+        ch = [{"kind": "delay_fixed", "d": x} for x in parts]
+        if tape.chance(1, 3):
+            ch = [{"kind": "delay_pull", "n": 1, "x": d}]
+        if tape.chance(1, 3):
+            ch.insert(tape.draw(len(ch) + 1), gen_adapter(tape, PASS))
+        links.append({"src": [0, 0], "dst": [1, 0], "chain": ch})
+        if tape.chance(1, 2):
+            comps.append({"name": "s2", "kind": "sim", "start": 0, "steps": [tape.choice([1, 2, 5])],
+                          "inputs": [{"name": "i0", "initial_pull": True}], "outputs": []})
+            links.append({"src": [0, 0], "dst": [2, 0], "chain": []})
+        listing = tape.shuffle(list(range(len(comps))))
+        span = d + tape.rng_int(30, 90)
+    sc = {"engine": "E1", "components": comps, "links": links, "end": span,
+          "start_given": tape.chance(1, 2), "cycles": [], "run_only": tape.chance(1, 2),
+          "listing": listing, "link_order": tape.shuffle(list(range(len(links)))), "long": True}
+    sc["api"] = tape.draw(8)
+    return sc
